@@ -213,6 +213,24 @@ fn main() {
         samples.push(json!({"note": "no non-trivial case was generated in this run"}));
     }
 
+    // results of the libFuzzer campaign that ran before this process (thorough tier), if any
+    let mut fuzz_embed: Option<Value> = None;
+    if let Ok(p) = std::env::var("VERIF_EMBED_FUZZ") {
+        if let Some(v) = std::fs::read_to_string(&p).ok().and_then(|t| serde_json::from_str::<Value>(&t).ok()) {
+            if let Some(vs) = v["violations"].as_array() {
+                for x in vs {
+                    let prop = x["property"].as_str().unwrap_or("");
+                    if prop == id {
+                        let rp = PathBuf::from(x["replay"].as_str().unwrap_or(""));
+                        eprintln!("libFuzzer campaign: {}", x["message"].as_str().unwrap_or(""));
+                        violations.push((x["message"].as_str().unwrap_or("").to_string(), rp));
+                    }
+                }
+            }
+            fuzz_embed = Some(v);
+        }
+    }
+
     let wall = t0.elapsed().as_secs_f64();
     let meta = props::meta(&id);
     let mut coverage = Map::new();
@@ -233,6 +251,9 @@ fn main() {
     );
     if !extra_all.is_empty() {
         coverage.insert("extra".into(), Value::Object(extra_all));
+    }
+    if let Some(f) = fuzz_embed {
+        coverage.insert("libfuzzer".into(), f);
     }
     coverage.insert("threads".into(), json!(threads));
     coverage.insert(
